@@ -328,6 +328,39 @@ func buildStorm() {
 			add(fmt.Sprintf("varint.FromBytes(%d)", v), func() string { d, err := varint.FromBytes(enc); return fmt.Sprint(uint64(d), err) })
 		}
 	}
+	// children of ONE parent key slice as bip32.Deserialize hands it out (it is cut from a longer payload, so
+	// it has spare capacity behind it), a different index in every item
+	{
+		pub := ecc.GetPublicKeyCompressed(stormKey(1))
+		xp := bip32.SerializePublic(pub, chain, det("fp", 4), 1, 0, 76067358)
+		pk, cc, _, _, _, _, err := bip32.Deserialize(xp)
+		if err == nil {
+			for i := 0; i < 6; i++ {
+				idx := uint32(i * 1000003)
+				add(fmt.Sprintf("DerivePublicChild(shared parent, %d)", idx), func() string {
+					ck, c2, err := bip32.DerivePublicChild(pk, cc, idx)
+					return fmt.Sprintf("%x %x %v", ck, c2, err)
+				})
+			}
+		}
+	}
+	// serializing and hashing distinct transactions, between calls on a transaction that cannot be serialized
+	for i := 0; i < 5; i++ {
+		raw := wideTx(i)
+		t, err := tx.FromBytes(raw)
+		if err != nil {
+			continue
+		}
+		add(fmt.Sprintf("Tx.Bytes/Id(%d)", i), func() string {
+			id, e1 := t.Id(true)
+			h, e2 := t.Hash(false)
+			return fmt.Sprintf("%x %s %v %x %v", sha256.Sum256(t.Bytes()), id, e1, h, e2)
+		})
+		bad := &tx.Tx{Version: int32(i)}
+		add(fmt.Sprintf("Tx.Bytes(unserializable %d)", i), func() string {
+			return fmt.Sprintf("%x %x %s", bad.Bytes(), bad.BytesNoWitness(), bad.Hex())
+		})
+	}
 	// the value of every call when run alone
 	for i := range stormItems {
 		stormItems[i].want = stormItems[i].f()
